@@ -64,13 +64,24 @@ Definition built_attrs (m : nsmap) (ds : list (str * str * str)) : list attr :=
 Definition consistent (m : nsmap) (ds : list (str * str * str)) : bool :=
   forallb (fun d => match get_attr (key_of m d) (snd (fst d)) (built_attrs m ds) with
                     | Some v => str_eqb v (snd d) | None => false end) ds.
-Definition step_good (m : nsmap) (s : step) : bool :=
+Definition step_good0 (m : nsmap) (s : step) : bool :=
   match s with
   | LocationStep AxChild (NameMatchTest p l) ps =>
       forallb loc_expr ps && pfx_ok m p && pfx_wf p && forallb (bound m) ps && forallb attr_pfx_wf ps
       && match derived_preds ps with Some ds => consistent m ds | None => false end
   | _ => false
   end.
+
+(* ... and no attribute the predicates require has a reserved name (`xmlns`, or the namespace of declarations) *)
+Definition step_good (m : nsmap) (s : step) : bool := step_good0 m s && unreserved m s.
+Lemma good_split m ss : forallb (step_good m) ss = true ->
+  forallb (step_good0 m) ss = true /\ forallb (unreserved m) ss = true.
+Proof.
+  induction ss as [|s ss IH]; cbn; [auto|]. unfold step_good at 1. intro H. apply andb_prop in H as [H1 H2].
+  apply andb_prop in H1 as [A B]. destruct (IH H2) as [C D]. rewrite A, B, C, D. auto.
+Qed.
+Ltac use_unreserved Us Ed H :=
+  unfold unreserved in Us; rewrite Ed in Us; apply negb_true_iff in Us; rewrite Us in H.
 
 Definition name_ok (m : nsmap) (p : option str) (l : str) (k : itree) : bool :=
   match ipayload k with
@@ -142,10 +153,10 @@ Qed.
 
 (* LocationStep._evaluate of an accepted step: the children that match name and attribute values; no fault *)
 Lemma good_step_eval D m p l ps n :
-  step_good m (LocationStep AxChild (NameMatchTest p l) ps) = true ->
+  step_good0 m (LocationStep AxChild (NameMatchTest p l) ps) = true ->
   d_step1 D m (LocationStep AxChild (NameMatchTest p l) ps) n = Ok (filter (fun c => smatch m p l ps (snd c)) (children n)).
 Proof.
-  unfold step_good. intro G. repeat (apply andb_prop in G as [G ?]).
+  unfold step_good0. intro G. repeat (apply andb_prop in G as [G ?]).
   unfold d_step1. cbn [d_axis].
   assert (T : filter_test m (NameMatchTest p l) (children n) = Ok (filter (fun c => name_ok m p l (snd c)) (children n))).
   { generalize (children_nonnil n). induction (children n) as [|c cs IH]; intro Hn; [reflexivity|].
@@ -209,7 +220,7 @@ Qed.
 
 (* LocationStep.evaluate of an accepted step on ONE node *)
 Lemma good_step_single D m p l ps n :
-  step_good m (LocationStep AxChild (NameMatchTest p l) ps) = true ->
+  step_good0 m (LocationStep AxChild (NameMatchTest p l) ps) = true ->
   d_step D m (LocationStep AxChild (NameMatchTest p l) ps) ([n], None) =
   (filter (fun c => smatch m p l ps (snd c)) (children n), None).
 Proof.
@@ -302,7 +313,7 @@ Proof.
   destruct (d_step t0 m s ([(pos, t0)], None)) as [l o]. destruct o as [f|]; [reflexivity|].
   destruct (visible_from vis pos l) as [|x [|y l']]; try reflexivity.
   - destruct pos; [reflexivity|]. destruct s as [a t ps]. destruct t; try reflexivity.
-    destruct (derived_preds ps); [|reflexivity].
+    destruct (derived_preds ps); [|reflexivity]. destruct (existsb _ _); [reflexivity|].
     destruct (create_in vis m r _ _); apply payload_insert_kid.
   - destruct (create_in vis m r (fst x) (snd x)); apply payload_set_kid.
 Qed.
@@ -367,10 +378,10 @@ Proof.
 Qed.
 
 Lemma new_matches m t0 p l ps ds :
-  step_good m (LocationStep AxChild (NameMatchTest p l) ps) = true -> derived_preds ps = Some ds ->
+  step_good0 m (LocationStep AxChild (NameMatchTest p l) ps) = true -> derived_preds ps = Some ds ->
   smatch m p l ps (new_node m t0 p l ds) = true.
 Proof.
-  unfold step_good. intros G Hd. rewrite Hd in G. repeat (apply andb_prop in G as [G ?]).
+  unfold step_good0. intros G Hd. rewrite Hd in G. repeat (apply andb_prop in G as [G ?]).
   unfold smatch, name_ok, new_node. cbn [ipayload]. rewrite !str_eqb_refl. cbn [andb].
   apply forallb_forall. intros e He. rewrite forallb_forall in G, H0.
   destruct (loc_expr_derived e (G e He)) as (de & Hde).
@@ -413,25 +424,25 @@ Lemma visible_from_incl vis pos l x : In x (visible_from vis pos l) -> In x l.
 Proof. unfold visible_from. destruct pos; [auto|]. intro H. apply filter_In in H. tauto. Qed.
 
 Lemma create_finds vis m D : forall ss pos t0 t' p, tags_visible vis ->
-  forallb (step_good m) ss = true -> is_tag_t t0 = true -> create_in vis m ss pos t0 = COk t' p ->
+  forallb (step_good0 m) ss = true -> forallb (unreserved m) ss = true -> is_tag_t t0 = true -> create_in vis m ss pos t0 = COk t' p ->
   exists sub q', fold_left (fun acc s => d_step D m s acc) ss ([(pos, t')], None) = ([(p, sub)], None) /\ p = pos ++ q'.
 Proof.
-  induction ss as [|s r IH]; intros pos t0 t' p Hv G Ht H.
+  induction ss as [|s r IH]; intros pos t0 t' p Hv G U Ht H.
   - cbn in H. inversion H; subst. exists t', []. rewrite app_nil_r. split; reflexivity.
-  - cbn [forallb] in G. apply andb_prop in G as [Gs Gr].
+  - cbn [forallb] in G. apply andb_prop in G as [Gs Gr]. cbn [forallb] in U. apply andb_prop in U as [Us Ur].
     destruct s as [a t ps]. destruct a; try discriminate Gs. destruct t as [pr l| | |]; try discriminate Gs.
     cbn [create_in] in H. pose proof (good_step_single t0 m pr l ps (pos, t0) Gs) as E0. rewrite children_filter in E0.
     rw_step_in H E0. clear E0. cbn beta iota in H. pose proof (vis_sel vis m pr l ps pos (tkids t0) Hv) as Ev. rw_vis_in H Ev. clear Ev.
     destruct (sel (smatch m pr l ps) 0 (tkids t0)) as [|[j k] [|? ?]] eqn:ES; cbn [map fst snd] in H; [| |discriminate H].
     + (* no candidate: a new element *)
       destruct pos as [|a0 pos']; [discriminate H|].
-      destruct (derived_preds ps) as [ds|] eqn:Ed; [|discriminate H].
+      destruct (derived_preds ps) as [ds|] eqn:Ed; [|discriminate H]. use_unreserved Us Ed H.
       destruct (create_in vis m r ((a0 :: pos') ++ [insert_index vis (tkids t0)]) (new_node m t0 pr l ds)) as [n' p'|n' f] eqn:Ec;
         [|discriminate H].
       inversion H; subst; clear H.
       pose proof (create_in_payload vis m r ((a0 :: pos') ++ [insert_index vis (tkids t0)]) (new_node m t0 pr l ds)) as Hp.
       rewrite Ec in Hp.
-      destruct (IH _ (new_node m t0 pr l ds) _ _ Hv Gr eq_refl Ec) as (sub & q' & Hf & Hq).
+      destruct (IH _ (new_node m t0 pr l ds) _ _ Hv Gr Ur eq_refl Ec) as (sub & q' & Hf & Hq).
       exists sub, (insert_index vis (tkids t0) :: q'). split; [|rewrite Hq, <- app_assoc; reflexivity].
       cbn [fold_left].
       pose proof (good_step_single D m pr l ps (a0 :: pos', insert_kid t0 (insert_index vis (tkids t0)) n') Gs) as E1.
@@ -448,7 +459,7 @@ Proof.
       pose proof (create_in_payload vis m r (pos ++ [j]) k) as Hp. rewrite Ec in Hp.
       assert (Fk' : smatch m pr l ps k' = true) by (rewrite (smatch_payload m pr l ps k' k Hp); exact Fk).
       destruct (sel_update _ _ _ _ _ k' ES Fk') as (i & Hj & Hn & Hs). cbn in Hj. subst j.
-      destruct (IH _ _ _ _ Hv Gr (smatch_tag _ _ _ _ _ Fk) Ec) as (sub & q' & Hf & Hq).
+      destruct (IH _ _ _ _ Hv Gr Ur (smatch_tag _ _ _ _ _ Fk) Ec) as (sub & q' & Hf & Hq).
       exists sub, (i :: q'). split; [|rewrite Hq, <- app_assoc; reflexivity].
       cbn [fold_left].
       pose proof (good_step_single D m pr l ps (pos, set_kid t0 i k') Gs) as E1.
@@ -478,7 +489,7 @@ Lemma foc_finds_relative vis root m ss q t0 t' p :
   foc vis root m m [LocationPath false ss] (0 :: q) = FocOk t' p ->
   exists n, eval (docnode t') m [LocationPath false ss] (ctx_nd t' (0 :: q)) = Ok [n] /\ fst n = p.
 Proof.
-  intros G Hs Ht. pose proof all_visible as Hv. unfold foc.
+  intros G' Hs Ht. destruct (good_split m ss G') as [G U]. pose proof all_visible as Hv. unfold foc.
   destruct (negb (locatable [LocationPath false ss])); [discriminate|].
   assert (Ec : ctx_nd root (0 :: q) = (0 :: q, t0)) by (unfold ctx_nd; cbn; rewrite Hs; reflexivity).
   fold (ctx_nd root (0 :: q)).
@@ -486,7 +497,7 @@ Proof.
   - (* creation *)
     rewrite Hs. cbn [opt_default]. destruct (pre_check m ss); [discriminate|].
     destruct (create_in all_vis m ss (0 :: q) t0) as [t0' p'|t0' f] eqn:Ecr; [|discriminate]. intro H. inversion H; subst; clear H.
-    destruct (create_finds all_vis m (docnode (replace_at root q t0')) ss (0 :: q) t0 t0' p Hv G Ht Ecr) as (sub & q' & Hf & Hq).
+    destruct (create_finds all_vis m (docnode (replace_at root q t0')) ss (0 :: q) t0 t0' p Hv G U Ht Ecr) as (sub & q' & Hf & Hq).
     exists (p, sub). split; [|reflexivity].
     assert (Ec' : ctx_nd (replace_at root q t0') (0 :: q) = (0 :: q, t0')).
     { unfold ctx_nd. cbn. rewrite (subtree_replace_at q root t0 t0' Hs). reflexivity. }
@@ -506,12 +517,12 @@ Lemma foc_finds_absolute vis root m s r ctx t' p :
   foc vis root m m [LocationPath true (s :: r)] ctx = FocOk t' p ->
   exists n, eval (docnode t') m [LocationPath true (s :: r)] (ctx_nd t' ctx) = Ok [n] /\ fst n = p.
 Proof.
-  intros G. pose proof all_visible as Hv. unfold foc.
+  intros G'. destruct (good_split m (s :: r) G') as [G U]. pose proof all_visible as Hv. unfold foc.
   destruct (negb (locatable [LocationPath true (s :: r)])); [discriminate|].
   fold (ctx_nd root ctx).
   destruct (eval (docnode root) m [LocationPath true (s :: r)] (ctx_nd root ctx)) as [[|x [|y l]]|f] eqn:Ev; try discriminate.
   - destruct (pre_check m (s :: r)); [discriminate|].
-    cbn [forallb] in G. apply andb_prop in G as [Gs Gr].
+    cbn [forallb] in G. apply andb_prop in G as [Gs Gr]. cbn [forallb] in U. apply andb_prop in U as [Us Ur].
     destruct s as [a t ps]. destruct a; try discriminate Gs. destruct t as [pr l| | |]; try discriminate Gs.
     cbn [create_in].
     pose proof (good_step_single (docnode root) m pr l ps ([], docnode root) Gs) as E0.
@@ -520,7 +531,7 @@ Proof.
     destruct (smatch m pr l ps root) eqn:Fr; cbn [map fst snd app]; [|discriminate].
     destruct (create_in all_vis m r [0] root) as [k' p'|k' f] eqn:Ecr; [|discriminate]. intro H. inversion H; subst; clear H.
     cbn [last set_kid docnode update_nth doc_root tkids].
-    destruct (create_finds all_vis m (docnode k') r [0] root k' p Hv Gr (smatch_tag _ _ _ _ _ Fr) Ecr) as (sub & q' & Hf & Hq).
+    destruct (create_finds all_vis m (docnode k') r [0] root k' p Hv Gr Ur (smatch_tag _ _ _ _ _ Fr) Ecr) as (sub & q' & Hf & Hq).
     exists (p, sub). split; [|reflexivity].
     pose proof (create_in_payload all_vis m r [0] root) as Hp. rewrite Ecr in Hp.
     pose proof (good_step_single (docnode k') m pr l ps ([], docnode k') Gs) as E1.
@@ -562,29 +573,29 @@ Proof.
   destruct (derived_expr p) as [a|] eqn:Ea; [|discriminate]. destruct (derived_preds ps) as [b|] eqn:Eb; [|discriminate].
   inversion H; subst. rewrite forallb_app, (bound_derived m p L1 B1 a Ea), (IH L2 B2 b eq_refl). reflexivity.
 Qed.
-Lemma step_good_inv m pr l ps : step_good m (LocationStep AxChild (NameMatchTest pr l) ps) = true ->
+Lemma step_good0_inv m pr l ps : step_good0 m (LocationStep AxChild (NameMatchTest pr l) ps) = true ->
   forallb loc_expr ps = true /\ pfx_ok m pr = true /\ pfx_wf pr = true /\ forallb (bound m) ps = true /\
   forallb attr_pfx_wf ps = true /\ exists ds, derived_preds ps = Some ds /\ consistent m ds = true.
 Proof.
-  unfold step_good. intro G. apply andb_prop in G as [G G6]. apply andb_prop in G as [G G5]. apply andb_prop in G as [G G4].
+  unfold step_good0. intro G. apply andb_prop in G as [G G6]. apply andb_prop in G as [G G5]. apply andb_prop in G as [G G4].
   apply andb_prop in G as [G G3]. apply andb_prop in G as [G1 G2]. repeat split; auto.
   destruct (derived_preds ps) as [ds|]; [eauto|discriminate].
 Qed.
 
 Lemma good_declared m pr l ps ds :
-  step_good m (LocationStep AxChild (NameMatchTest pr l) ps) = true -> derived_preds ps = Some ds ->
+  step_good0 m (LocationStep AxChild (NameMatchTest pr l) ps) = true -> derived_preds ps = Some ds ->
   prefixes_declared m pr ds = true.
 Proof.
-  intros G Hd. destruct (step_good_inv m pr l ps G) as (G1 & G2 & G3 & G4 & G5 & _).
+  intros G Hd. destruct (step_good0_inv m pr l ps G) as (G1 & G2 & G3 & G4 & G5 & _).
   unfold prefixes_declared. cbn [forallb]. apply andb_true_intro. split.
   - unfold pfx_ok in G2. destruct pr as [q|]; cbn; [|reflexivity]. destruct (ns_get m q); [apply orb_true_r|discriminate G2].
   - rewrite forallb_forall. intros p Hp. apply in_map_iff in Hp as (d & <- & Hin).
     pose proof (bound_derived_preds m ps G1 G4 ds Hd) as F. rewrite forallb_forall in F. exact (F d Hin).
 Qed.
 
-Lemma good_derived m pr l ps : step_good m (LocationStep AxChild (NameMatchTest pr l) ps) = true ->
+Lemma good_derived m pr l ps : step_good0 m (LocationStep AxChild (NameMatchTest pr l) ps) = true ->
   exists ds, derived_preds ps = Some ds.
-Proof. unfold step_good. intro G. destruct (derived_preds ps); [eauto|]. rewrite !andb_false_r in G. discriminate. Qed.
+Proof. unfold step_good0. intro G. destruct (derived_preds ps); [eauto|]. rewrite !andb_false_r in G. discriminate. Qed.
 
 Lemma tkids_new_node m t0 pr l ds : tkids (new_node m t0 pr l ds) = [].
 Proof. reflexivity. Qed.
@@ -609,45 +620,45 @@ Inductive grown : itree -> itree -> Prop :=
 | grown_insert t idx c : is_tag_t t = true -> idx <= length (tkids t) -> chain c -> grown t (insert_kid t idx c)
 | grown_down t i k k' : nth_error (tkids t) i = Some k -> grown k k' -> grown t (set_kid t i k').
 
-Lemma chain_result vis m : forall r pos n n' p, forallb (step_good m) r = true -> tkids n = [] -> is_tag_t n = true -> pos <> [] ->
+Lemma chain_result vis m : forall r pos n n' p, forallb (step_good0 m) r = true -> forallb (unreserved m) r = true -> tkids n = [] -> is_tag_t n = true -> pos <> [] ->
   create_in vis m r pos n = COk n' p -> chain n'.
 Proof.
-  induction r as [|s r IH]; intros pos n n' p G Hk Ht Hp H.
+  induction r as [|s r IH]; intros pos n n' p G U Hk Ht Hp H.
   - cbn in H. inversion H; subst. destruct n' as [id pl kids]. destruct pl; cbn in Ht, Hk; try discriminate. subst. constructor.
-  - cbn [forallb] in G. apply andb_prop in G as [Gs Gr].
+  - cbn [forallb] in G. apply andb_prop in G as [Gs Gr]. cbn [forallb] in U. apply andb_prop in U as [Us Ur].
     destruct s as [a t ps]. destruct a; try discriminate Gs. destruct t as [pr l| | |]; try discriminate Gs.
     cbn [create_in] in H. pose proof (good_step_single n m pr l ps (pos, n) Gs) as E0. rewrite children_filter, Hk in E0. cbn in E0.
     rw_step_in H E0. cbn beta iota in H. rewrite visible_from_nil in H. destruct pos as [|a0 pos']; [congruence|].
-    destruct (derived_preds ps) as [ds|]; [|discriminate H].
+    destruct (derived_preds ps) as [ds|] eqn:Ed; [|discriminate H]. use_unreserved Us Ed H.
     destruct (create_in vis m r ((a0 :: pos') ++ [insert_index vis (tkids n)]) (new_node m n pr l ds)) as [n2 p2|n2 f] eqn:Ec; [|discriminate H].
     inversion H; subst; clear H.
     assert (C2 : chain n2).
-    { apply (IH ((a0 :: pos') ++ [insert_index vis (tkids n)]) (new_node m n pr l ds) n2 p Gr eq_refl eq_refl);
+    { apply (IH ((a0 :: pos') ++ [insert_index vis (tkids n)]) (new_node m n pr l ds) n2 p Gr Ur eq_refl eq_refl);
         [destruct pos'; discriminate|exact Ec]. }
     destruct n as [id pl kids]. destruct pl; cbn in Ht, Hk; try discriminate. subst kids.
     cbn. constructor. exact C2.
 Qed.
 
-Lemma create_grown vis m : forall ss pos t0 t' p, tags_visible vis -> forallb (step_good m) ss = true -> is_tag_t t0 = true ->
+Lemma create_grown vis m : forall ss pos t0 t' p, tags_visible vis -> forallb (step_good0 m) ss = true -> forallb (unreserved m) ss = true -> is_tag_t t0 = true ->
   create_in vis m ss pos t0 = COk t' p -> grown t0 t'.
 Proof.
-  induction ss as [|s r IH]; intros pos t0 t' p Hv G Ht H; [cbn in H; inversion H; constructor|].
-  cbn [forallb] in G. apply andb_prop in G as [Gs Gr].
+  induction ss as [|s r IH]; intros pos t0 t' p Hv G U Ht H; [cbn in H; inversion H; constructor|].
+  cbn [forallb] in G. apply andb_prop in G as [Gs Gr]. cbn [forallb] in U. apply andb_prop in U as [Us Ur].
   destruct s as [a t ps]. destruct a; try discriminate Gs. destruct t as [pr l| | |]; try discriminate Gs.
   cbn [create_in] in H. pose proof (good_step_single t0 m pr l ps (pos, t0) Gs) as E0. rewrite children_filter in E0.
   rw_step_in H E0. clear E0. cbn beta iota in H. pose proof (vis_sel vis m pr l ps pos (tkids t0) Hv) as Ev. rw_vis_in H Ev. clear Ev.
   destruct (sel (smatch m pr l ps) 0 (tkids t0)) as [|[j k] [|? ?]] eqn:ES; cbn [map fst snd] in H; [| |discriminate H].
   - destruct pos as [|a0 pos']; [discriminate H|].
-    destruct (derived_preds ps) as [ds|]; [|discriminate H].
+    destruct (derived_preds ps) as [ds|] eqn:Ed; [|discriminate H]. use_unreserved Us Ed H.
     destruct (create_in vis m r ((a0 :: pos') ++ [insert_index vis (tkids t0)]) (new_node m t0 pr l ds)) as [n' p'|n' f] eqn:Ec; [|discriminate H].
     inversion H; subst; clear H. apply grown_insert; [exact Ht|apply insert_index_le|].
-    apply (chain_result vis m r ((a0 :: pos') ++ [insert_index vis (tkids t0)]) (new_node m t0 pr l ds) n' p Gr eq_refl eq_refl);
+    apply (chain_result vis m r ((a0 :: pos') ++ [insert_index vis (tkids t0)]) (new_node m t0 pr l ds) n' p Gr Ur eq_refl eq_refl);
       [destruct pos'; discriminate|exact Ec].
   - destruct (create_in vis m r (pos ++ [j]) k) as [k' p'|k' f] eqn:Ec; [|discriminate H]. inversion H; subst; clear H.
     rewrite last_last.
     assert (Fk : smatch m pr l ps k = true) by (apply (sel_member_true _ 0 (tkids t0) j); rewrite ES; left; reflexivity).
     destruct (sel_update _ _ _ _ _ k ES Fk) as (i & Hj & Hn & _). cbn in Hj. subst j.
-    eapply grown_down; [exact Hn|]. eapply (IH _ _ _ _ Hv Gr); [eapply smatch_tag; eauto|exact Ec].
+    eapply grown_down; [exact Hn|]. eapply (IH _ _ _ _ Hv Gr Ur); [eapply smatch_tag; eauto|exact Ec].
 Qed.
 
 (* ================================================================ foc level: minimal, and faults change nothing *)
@@ -660,7 +671,7 @@ Proof.
 Qed.
 
 Definition steps_good (m : nsmap) (e : xpath_expr) : bool :=
-  match e with [LocationPath _ ss] => forallb (step_good m) ss && negb (null ss) | _ => false end.
+  match e with [LocationPath _ ss] => forallb (step_good0 m) ss && negb (null ss) | _ => false end.
 
 (* what the tree is afterwards: the old tree, or the old tree with the subtree at the start node grown by one chain *)
 Lemma foc_minimal vis root m ab ss q t0 t' p :
@@ -668,21 +679,21 @@ Lemma foc_minimal vis root m ab ss q t0 t' p :
   foc vis root m m [LocationPath ab ss] (0 :: q) = FocOk t' p ->
   t' = root \/ (ab = false /\ exists t0', grown t0 t0' /\ t' = replace_at root q t0') \/ (ab = true /\ grown root t').
 Proof.
-  intros G Hs Ht. pose proof all_visible as Hv. unfold foc. destruct (negb (locatable [LocationPath ab ss])); [discriminate|].
+  intros G' Hs Ht. destruct (good_split m ss G') as [G U]. pose proof all_visible as Hv. unfold foc. destruct (negb (locatable [LocationPath ab ss])); [discriminate|].
   destruct (eval _ _ _ _) as [[|x [|y l]]|f]; try discriminate.
   - destruct ab.
     + destruct (pre_check m ss); [discriminate|].
       destruct ss as [|s r]; [cbn; intro H; inversion H; left; reflexivity|].
-      cbn [forallb] in G. apply andb_prop in G as [Gs Gr].
+      cbn [forallb] in G. apply andb_prop in G as [Gs Gr]. cbn [forallb] in U. apply andb_prop in U as [Us Ur].
       destruct s as [a t ps]. destruct a; try discriminate Gs. destruct t as [pr l| | |]; try discriminate Gs.
       cbn [create_in].
       pose proof (good_step_single (docnode root) m pr l ps ([], docnode root) Gs) as E0. rewrite children_filter, sel_doc in E0.
       rw_step E0. cbn beta iota. cbn [visible_from]. destruct (smatch m pr l ps root) eqn:Fr; cbn [map fst snd app]; [|discriminate].
       destruct (create_in all_vis m r [0] root) as [k' p'|k' f] eqn:Ecr; [|discriminate]. intro H. inversion H; subst; clear H.
-      right. right. split; [reflexivity|]. cbn. eapply (create_grown all_vis m r _ _ _ _ Hv Gr); [eapply smatch_tag; eauto|exact Ecr].
+      right. right. split; [reflexivity|]. cbn. eapply (create_grown all_vis m r _ _ _ _ Hv Gr Ur); [eapply smatch_tag; eauto|exact Ecr].
     + rewrite Hs. cbn [opt_default]. destruct (pre_check m ss); [discriminate|].
       destruct (create_in all_vis m ss (0 :: q) t0) as [t0' p'|t0' f] eqn:Ecr; [|discriminate]. intro H. inversion H; subst; clear H.
-      right. left. split; [reflexivity|]. exists t0'. split; [|reflexivity]. eapply (create_grown all_vis m ss _ _ _ _ Hv G Ht Ecr).
+      right. left. split; [reflexivity|]. exists t0'. split; [|reflexivity]. eapply (create_grown all_vis m ss _ _ _ _ Hv G U Ht Ecr).
   - intro H. inversion H. left. reflexivity.
 Qed.
 
@@ -697,14 +708,16 @@ Qed.
 Lemma loc_step_inv s : loc_step s = true -> exists pr l ps, s = LocationStep AxChild (NameMatchTest pr l) ps /\ forallb loc_expr ps = true.
 Proof. destruct s as [a t ps]. destruct a; try discriminate. destruct t; try discriminate. cbn. eauto. Qed.
 
-Lemma chain_no_fault_loc vis m : forall r pos n, forallb loc_step r = true -> tkids n = [] -> pos <> [] ->
+Lemma chain_no_fault_loc vis m : forall r pos n, forallb loc_step r = true -> forallb (unreserved m) r = true -> tkids n = [] -> pos <> [] ->
   exists n' p, create_in vis m r pos n = COk n' p.
 Proof.
-  induction r as [|s r IH]; intros pos n G Hk Hp; [cbn; eauto|].
-  cbn [forallb] in G. apply andb_prop in G as [Gs Gr]. destruct (loc_step_inv s Gs) as (pr & l & ps & -> & Lp).
+  induction r as [|s r IH]; intros pos n G U Hk Hp; [cbn; eauto|].
+  cbn [forallb] in G. apply andb_prop in G as [Gs Gr]. cbn [forallb] in U. apply andb_prop in U as [Us Ur].
+  destruct (loc_step_inv s Gs) as (pr & l & ps & -> & Lp).
   cbn [create_in]. pose proof (childless_step n m (NameMatchTest pr l) ps pos n Hk) as E0. rw_step E0. cbn beta iota. rewrite visible_from_nil.
-  destruct pos as [|a0 pos']; [congruence|]. destruct (loc_preds_derived ps Lp) as (ds & ->).
-  destruct (IH ((a0 :: pos') ++ [insert_index vis (tkids n)]) (new_node m n pr l ds) Gr eq_refl) as (n' & p & Hc).
+  destruct pos as [|a0 pos']; [congruence|]. destruct (loc_preds_derived ps Lp) as (ds & Ed). rewrite Ed.
+  unfold unreserved in Us. rewrite Ed in Us. apply negb_true_iff in Us. rewrite Us.
+  destruct (IH ((a0 :: pos') ++ [insert_index vis (tkids n)]) (new_node m n pr l ds) Gr Ur eq_refl) as (n' & p & Hc).
   { destruct pos'; discriminate. }
   rewrite Hc. eauto.
 Qed.
@@ -750,21 +763,22 @@ Proof.
 Qed.
 
 Lemma create_unchanged_loc vis m : forall ss pos t0 t' f,
-  forallb loc_step ss = true -> create_in vis m ss pos t0 = CFault t' f -> t' = t0.
+  forallb loc_step ss = true -> forallb (unreserved m) ss = true -> create_in vis m ss pos t0 = CFault t' f -> t' = t0.
 Proof.
-  induction ss as [|s r IH]; intros pos t0 t' f G H; [discriminate H|].
-  cbn [forallb] in G. apply andb_prop in G as [Gs Gr]. destruct (loc_step_inv s Gs) as (pr & l & ps & -> & Lp).
+  induction ss as [|s r IH]; intros pos t0 t' f G U H; [discriminate H|].
+  cbn [forallb] in G. apply andb_prop in G as [Gs Gr]. cbn [forallb] in U. apply andb_prop in U as [Us Ur].
+  destruct (loc_step_inv s Gs) as (pr & l & ps & -> & Lp).
   cbn [create_in] in H.
   destruct (d_step t0 m (LocationStep AxChild (NameMatchTest pr l) ps) ([(pos, t0)], None)) as [lst o] eqn:E.
   destruct o as [f0|]; [inversion H; reflexivity|].
   match type of H with context [visible_from ?v ?p ?l] => destruct (visible_from v p l) as [|x [|y lst']] eqn:Ef end; try (inversion H; reflexivity).
   - destruct pos as [|a0 pos']; [inversion H; reflexivity|].
-    destruct (loc_preds_derived ps Lp) as (ds & Hd). rewrite Hd in H.
-    destruct (chain_no_fault_loc vis m r ((a0 :: pos') ++ [insert_index vis (tkids t0)]) (new_node m t0 pr l ds) Gr eq_refl) as (n' & p & Hc).
+    destruct (loc_preds_derived ps Lp) as (ds & Hd). rewrite Hd in H. use_unreserved Us Hd H.
+    destruct (chain_no_fault_loc vis m r ((a0 :: pos') ++ [insert_index vis (tkids t0)]) (new_node m t0 pr l ds) Gr Ur eq_refl) as (n' & p & Hc).
     { destruct pos'; discriminate. }
     rewrite Hc in H. discriminate H.
   - destruct (create_in vis m r (fst x) (snd x)) as [k' p'|k' f'] eqn:Ec; [discriminate H|]. inversion H; subst; clear H.
-    rewrite (IH _ _ _ _ Gr Ec).
+    rewrite (IH _ _ _ _ Gr Ur Ec).
     assert (Hx : In x lst).
     { apply (visible_from_incl vis pos). rewrite Ef. left. reflexivity. }
     pose proof (child_step_incl _ _ _ _ _ _ _ E x Hx) as Hin.
@@ -774,17 +788,19 @@ Qed.
 Lemma locatable_inv e : locatable e = true -> exists ab ss, e = [LocationPath ab ss] /\ forallb loc_step ss = true.
 Proof. destruct e as [|[ab ss] [|? ?]]; cbn; try discriminate. eauto. Qed.
 
+Definition no_reserved (m : nsmap) (e : xpath_expr) : bool := forallb (fun p => forallb (unreserved m) (path_steps p)) e.
 Lemma foc_fault_unchanged vis root me mc e q t0 t' f :
-  subtree root q = Some t0 -> foc vis root me mc e (0 :: q) = FocFault t' f -> t' = root.
+  no_reserved mc e = true -> subtree root q = Some t0 -> foc vis root me mc e (0 :: q) = FocFault t' f -> t' = root.
 Proof.
-  intros Hs. unfold foc. destruct (locatable e) eqn:L; cbn [negb]; [|intro H; inversion H; reflexivity].
+  intros Hnr Hs. unfold foc. destruct (locatable e) eqn:L; cbn [negb]; [|intro H; inversion H; reflexivity].
   destruct (locatable_inv e L) as (ab & ss & -> & G).
+  assert (U : forallb (unreserved mc) ss = true) by (cbn in Hnr; rewrite andb_true_r in Hnr; exact Hnr).
   destruct (eval _ _ _ _) as [[|x [|y l]]|f0]; try (intro H; inversion H; reflexivity).
   destruct ab.
   - destruct (pre_check mc ss); [intro H; inversion H; reflexivity|].
     destruct (create_in all_vis mc ss [] (docnode root)) as [D' p'|D' f'] eqn:Ecr; [discriminate|]. intro H. inversion H; subst; clear H.
-    rewrite (create_unchanged_loc all_vis mc ss [] (docnode root) D' f G Ecr). reflexivity.
+    rewrite (create_unchanged_loc all_vis mc ss [] (docnode root) D' f G U Ecr). reflexivity.
   - rewrite Hs. cbn [opt_default]. destruct (pre_check mc ss); [intro H; inversion H; reflexivity|].
     destruct (create_in all_vis mc ss (0 :: q) t0) as [t0' p'|t0' f'] eqn:Ecr; [discriminate|]. intro H. inversion H; subst; clear H.
-    rewrite (create_unchanged_loc all_vis mc ss (0 :: q) t0 t0' f G Ecr). apply replace_at_same. exact Hs.
+    rewrite (create_unchanged_loc all_vis mc ss (0 :: q) t0 t0' f G U Ecr). apply replace_at_same. exact Hs.
 Qed.
